@@ -9,7 +9,7 @@
      affine ops mean L z         mean + L z
    A source iterator is the list of numbers it will still yield; every draw returns the rest. *)
 From Coq Require Import List Arith NArith ZArith Reals.
-From EasyML Require Import Base.Sx Model.Num Model.Gaussian Proofs.C14P Proofs.RealOps Proofs.C17P Proofs.C17R.
+From EasyML Require Import Base.Sx Model.Num Model.Stats Model.Gaussian Proofs.C14P Proofs.RealOps Proofs.C17P Proofs.C17R.
 Import ListNotations.
 Local Close Scope R_scope.
 Local Open Scope nat_scope.
@@ -36,6 +36,20 @@ Theorem C17_pdf_real : forall mean var x : R, (0 < var)%R ->
   probability Rops (mkGaussian mean var) x =
   (1 / sqrt (2 * PI * var) * exp (- ((x - mean) * (x - mean)) / (2 * var)))%R.
 Proof. exact pdf_real. Qed.
+
+(* Gaussian::approximating fits the population mean and variance (C14's definitions) *)
+Theorem C17_approximating : forall R (ops : numops R), is_field ops -> forall l : list R,
+  (l <> [] -> approximating ops l = Ok (mkGaussian (mean_spec ops l) (var_spec ops l))) /\
+  approximating ops [] = Panic.
+Proof. exact @approximating_correct. Qed.
+
+(* the pair of samples made from the source numbers (u, v), over the reals: the documented
+   Box-Muller transform scaled by the standard deviation and shifted by the mean *)
+Theorem C17_box_muller_real : forall mean var u v : R,
+  box_muller Rops (mkGaussian mean var) u v =
+  ((sqrt (-2 * ln u) * cos (2 * PI * v) * sqrt var + mean)%R,
+   (sqrt (-2 * ln u) * sin (2 * PI * v) * sqrt var + mean)%R).
+Proof. exact box_muller_real. Qed.
 
 (* Gaussian::draw as one equation: present exactly when 2*ceil(k/2) numbers are available; the
    samples are the first k of the pairwise Box-Muller images; the rest of the source is untouched *)
@@ -129,6 +143,8 @@ Qed.
 
 Print Assumptions C17_pdf.
 Print Assumptions C17_pdf_real.
+Print Assumptions C17_approximating.
+Print Assumptions C17_box_muller_real.
 Print Assumptions C17_draw_spec.
 Print Assumptions C17_draw_len.
 Print Assumptions C17_draw_consumption.
